@@ -4,9 +4,12 @@
 // cancellation are the E1 part).
 //
 // Bounded-exhaustive grammar: 4 RPC kinds x direction carrying the message
-// (request / response) x cloner configuration {none configured, CodecCloner of
-// the registered proto codec, CloneFunc(correct fn), CopyFunc(correct fn)} x
-// message pool (pool.go, the pool of the C18 check) x representation of the
+// (request / response), plus the unary call cancelled before the handler decodes
+// (request only) x cloner configuration {none configured, CodecCloner of the
+// registered proto codec, CloneFunc(correct fn), CopyFunc(correct fn)} x, for
+// the two configurations that run a user-supplied copy (CopyFunc, CodecCloner),
+// what that correct user function does with the storage of the destination it is
+// handed {allocates afresh, keeps it: userfn.go} x message pool (pool.go, the pool of the C18 check) x representation of the
 // sender's object and of the receiver's destination {generated,
 // *dynamic.Message}^2 x previous content of the receive destination.
 // Every case is one RPC on a real inprocgrpc.Channel; see harness.go for the
@@ -20,6 +23,7 @@ import (
 	"runtime/debug"
 	"sort"
 	"strings"
+	"sync/atomic"
 	"time"
 
 	"verif/seq/common"
@@ -45,7 +49,7 @@ func guarded(k kase) outcome {
 	panic("unreachable")
 }
 
-var kinds = []string{"unary", "client-stream", "server-stream", "bidi"}
+var kinds = []string{"unary", "client-stream", "server-stream", "bidi", "unary-cancelled"}
 
 type repPair struct{ send, recv string }
 
@@ -59,6 +63,9 @@ func enumerate(thorough bool) []kase {
 		for _, cl := range clonerNames {
 			for _, kind := range kinds {
 				for _, dir := range []string{"req", "resp"} {
+					if kind == "unary-cancelled" && dir != "req" {
+						continue // the response of a cancelled call is dropped
+					}
 					for _, s := range pool {
 						fills := fillers(s.Type, s, thorough)
 						names := []string{}
@@ -88,8 +95,8 @@ func enumerate(thorough bool) []kase {
 // needs a dynamic message on either side.
 
 func path(kind string) string {
-	if kind == "unary" {
-		return "unary"
+	if kind == "unary" || kind == "unary-cancelled" {
+		return kind
 	}
 	return "stream"
 }
@@ -196,7 +203,11 @@ func main() {
 		for _, x := range kinds {
 			okKind = okKind || x == k.Kind
 		}
-		if k.Engine != "E2" || specByName[k.Shape] == nil || !okKind || (k.Dir != "req" && k.Dir != "resp") {
+		okCloner := false
+		for _, x := range clonerNames {
+			okCloner = okCloner || x == k.Cloner
+		}
+		if k.Engine != "E2" || specByName[k.Shape] == nil || !okKind || !okCloner || (k.Dir != "req" && k.Dir != "resp") || (k.Kind == "unary-cancelled" && k.Dir != "req") {
 			inconclusive("replay file does not describe a case of the C06 content part")
 		}
 		o := guarded(k)
@@ -222,6 +233,8 @@ func main() {
 		inconclusive(fmt.Sprintf("self check failed (pool / mutator / address walk / reference clone and copy functions): %v", pr))
 	}
 
+	atomic.StoreInt64(&reuseCalls, 0)
+	atomic.StoreInt64(&reuseRetained, 0)
 	evals, pairs, mutations := 0, 0, 0
 	distinct := map[string]bool{}
 	perClass := map[string]int{}
@@ -276,25 +289,30 @@ func main() {
 	os.Exit(rep.Finish("exploration", map[string]interface{}{
 		"evaluations":         evals,
 		"distinct_nontrivial": len(distinct),
-		"rule": "every (cloner configuration, RPC kind, direction, pool message, sender representation, receiver representation, previous content of the destination) of the grammar is one RPC on a real " +
+		"rule": "every (cloner configuration incl. the variant of its user-supplied function, RPC kind incl. the unary call cancelled before the handler decodes, direction, pool message, sender representation, receiver representation, previous content of the destination) of the grammar is one RPC on a real " +
 			"inprocgrpc.Channel. A case is non-trivial when the message went through the channel's clone/copy path and the pair (sender's object, receiver's object) was put through the disjointness test " +
 			"with at least one in-place mutation applied, or a clause failed; distinct by all case parameters.",
-		"samples":               samples,
-		"exhaustive":            true,
-		"pool_messages":         len(pool),
-		"message_types":         len(typeOrder),
-		"cloner_configurations": clonerNames,
-		"object_pairs_compared": pairs,
-		"in_place_mutations":    mutations,
-		"undecided_cases":       len(undecided),
-		"nontrivial_by_class":   classes,
-		"engine":                "E2",
-		"part":                  "content (shapes x cloners) under the ordinary schedule; use-after-return over all schedules and early cancellation are the E1 part",
+		"samples":                            samples,
+		"exhaustive":                         true,
+		"pool_messages":                      len(pool),
+		"message_types":                      len(typeOrder),
+		"cloner_configurations":              clonerNames,
+		"user_function_variants":             "CopyFunc and CodecCloner each with a user function / codec that allocates the destination's content afresh and with one that overwrites the destination keeping its storage (X/reuse)",
+		"reuse_function_calls_by_library":    atomic.LoadInt64(&reuseCalls),
+		"reuse_function_storage_kept_events": atomic.LoadInt64(&reuseRetained),
+		"object_pairs_compared":              pairs,
+		"in_place_mutations":                 mutations,
+		"undecided_cases":                    len(undecided),
+		"nontrivial_by_class":                classes,
+		"engine":                             "E2",
+		"part":                               "content (shapes x cloners) under the ordinary schedule; use-after-return over all schedules and early cancellation are the E1 part",
 	}, []string{
 		"only the ordinary Go schedule is seen here; the sender's mutation right after SendMsg is made to precede the receive by a token the receiver waits for (the in-flight frame sits in the stream's one-slot buffer)",
 		"*dynamic.Message exposes no protoreflect view: its content is mutated through its public accessors; the address walk covers generated messages only (strings and per-type internal state exempt)",
 		"equality of a dynamic message is judged on its deterministic wire form parsed into the generated type",
-		"the clone and copy functions given to CloneFunc/CopyFunc are the checker's own (those of the C18 check); they pass a self check on the whole pool before anything runs (otherwise exit 2)",
+		"the clone and copy functions given to CloneFunc/CopyFunc and the codec given to CodecCloner are the checker's own (those of the C18 check, plus the storage-keeping copy function and codec of userfn.go); they pass a self check on the whole pool before anything runs (otherwise exit 2): equal, deep, destination overwritten, source untouched whenever the destination is an object of its own",
+		"a user function is taken to be correct when it satisfies the Cloner contract for a destination that is an object of its own; what it does with a destination that aliases the source is the library's responsibility, since only the library makes up destinations (CopyFunc's Clone)",
+		"unary-cancelled: the handler itself cancels the caller's context before decoding and decodes only after Invoke has returned and the caller has mutated its request (one fixed schedule; all schedules are the E1 part)",
 		"an RPC that fails (e.g. a cloner refusing a pairing) is not a C06 matter: such a case is counted as undecided and makes the run inconclusive (exit 2) unless a violation was found",
 	}))
 }
